@@ -15,7 +15,7 @@ from xh import langs, mb
 PROP = 'C18'
 TYPES0 = ['G1', 'G2', 'Am']
 IDS0 = [-5, 0]
-DPV = [None, 0.5]
+DPV = [None, 0.5, 0.0]
 ATT = [[], [(0, 's')], [(0, 's'), (0, 'tP'), (1, 'tO'), (2, 'back')]]
 _CNT = [0]
 
@@ -51,8 +51,8 @@ def native_model(lcf, c):
         mb.add_link(m, lcf, k, f1, [a0], f2, [a1])
     eps = ATT[c['att']]
     if eps:
-        t = AttackerAttachment(name='Attacker:40')
-        m.add_attacker(t, attacker_id=40)
+        t = AttackerAttachment(name='Attacker:%d' % c['aid'])
+        m.add_attacker(t, attacker_id=c['aid'])
         for (ai, st) in eps:
             t.add_entry_point(A[ai], st)
     return m
@@ -136,7 +136,7 @@ def emit_eom(m, orient):
 
 
 def _choices(kw):
-    return {'t0': idx(kw['t0'], 3), 'i0': idx(kw['i0'], 2), 'dp': idx(kw['dp'], 2), 'att': idx(kw['att'], 3),
+    return {'t0': idx(kw['t0'], 3), 'i0': idx(kw['i0'], 2), 'dp': idx(kw['dp'], 3), 'aid': ([40, 0][idx(kw['aid'], 2)] if 'aid' in kw else 40), 'att': idx(kw['att'], 3),
             'l0': bool(kw['l0']), 'l1': bool(kw['l1']), 'l2': bool(kw['l2']), 'l3': bool(kw['l3']), 'l4': bool(kw['l4']), 'pack': bool(kw['pack'])}
 
 
@@ -202,14 +202,15 @@ def body_scad(cube, **kw):
 
 
 def queries(tier):
-    base = [I('t0', 0, 2), I('i0', 0, 1), I('dp', 0, 1), I('att', 0, 2), B('l0'), B('l1'), B('l2'), B('l3'), B('l4'), B('pack')]
-    w = {'t0': 0, 'i0': 1, 'dp': 1, 'att': 2, 'l0': True, 'l1': True, 'l2': True, 'l3': False, 'l4': True, 'pack': True}
-    pre = ['l0 + l1 + l2 + l3 + l4 <= 3', 'not pack or (l0 and l1)'] if tier == 'quick' else ['not pack or (l0 and l1)']
+    base = [I('t0', 0, 2), I('i0', 0, 1), I('dp', 0, 2), I('aid', 0, 1), I('att', 0, 2), B('l0'), B('l1'), B('l2'), B('l3'), B('l4'), B('pack')]
+    w = {'t0': 0, 'i0': 1, 'dp': 1, 'aid': 0, 'att': 2, 'l0': True, 'l1': True, 'l2': True, 'l3': False, 'l4': True, 'pack': True}
+    pre = (['l0 + l1 + l2 + l3 + l4 <= 2', 'not pack or (l0 and l1)'] if tier == 'quick' else ['not pack or (l0 and l1)']) + \
+          ['aid == 0 or (att > 0 and i0 == 0)']     # attacker id 0 only together with an attacker and a non-zero asset id
     qs = [Query(name='old', body=body_old, params=base + [I('var', 0, 1), I('fmt', 0, 2)], pre=pre + (['fmt == var'] if tier == 'quick' else []),
                 split=['t0', 'att'], timeout=600 if tier == 'quick' else 1700,
                 witnesses=[({}, dict(w, var=0, fmt=0)), ({}, dict(w, var=1, fmt=1, t0=1))],
                 bound='3-asset L_INH models (first asset G1/G2/Am with id -5 or 0, ids 3 and 12; defenses; links L (separate or two members in one field), L1, L2, '
-                      'Dup_G1_O / Dup_G2_O; attacker 40 with 0, 1 or 4 entry points incl. two on one asset) emitted in the 0.0.39 layout (both association '
+                      'Dup_G1_O / Dup_G2_O; attacker with id 40 or 0 and 0, 1 or 4 entry points incl. two on one asset; defense dP (enabled by default) left, set to 0.5 or switched to 0) emitted in the 0.0.39 layout (both association '
                       'variants; json / yml / yaml) and loaded by load_model_from_older_version'),
           Query(name='scad', body=body_scad, params=base + [I('ori', 0, 1)], pre=pre, split=['t0', 'att'], timeout=600 if tier == 'quick' else 1700,
                 witnesses=[({}, dict(w, **{'ori': 0})), ({}, dict(w, **{'ori': 1, 't0': 1, 'i0': 0}))],
